@@ -138,7 +138,12 @@ where
         let old = mem::replace(&mut self.tbl, vec![HashTableElement::default(); new_sz]);
         let c = self.cap;
         for i in old.iter() {
-            propagate(&mut self.tbl, self.cap, i.clone(), (i.hash as usize) % c);
+            // only occupied slots hold an element; each one restarts probing
+            // from its home slot, so its probe sequence length is 0 again
+            if i.is_occupied() {
+                let itm = HashTableElement::new(i.ptr.unwrap(), i.hash, 0);
+                propagate(&mut self.tbl, self.cap, itm, (i.hash as usize) % c);
+            }
         }
     }
 
